@@ -55,7 +55,8 @@ Definition reference_facts : facts := {|
   f_direct_ro := true;
   f_call_inherits_static := false;
   f_snap_each_call := true;
-  f_max_calls := 10 |}.
+  f_max_calls := 10;
+  f_revert_decode_total := true |}.
 
 (** sample world for witnesses: the state is a counter of writes; state-changing bodies write once *)
 Definition sample_body : mid -> list arg -> Z -> Z -> bres Z :=
@@ -113,3 +114,12 @@ Definition sample_touch : mid -> list arg -> Z * Z -> bool :=
   fun m _ _ => match m with FT_sendToBank | FT_sendToEvm => true | _ => false end.
 Definition sample_transfer_ev (ev v : Z) : Z := ev + 1000.
 Definition x0 : txstate Z Z := {| x_ev := 0; x_ms := 0; x_j := []; x_cnt := 0 |}.
+
+(** FunToken.balance(who, erc20) on a FunToken whose registered ERC20 reverts every balanceOf with the bare
+    4-byte selector of Panic(uint256), out of a memory of one word *)
+Definition balance_call : input := call_of 2986589081 68 [AAddr; AAddr].
+Definition hostile_token_body : mid -> list arg -> Z -> Z -> bres Z :=
+  fun m _ st _ => match m with
+                  | FT_balance | FT_sendToBank | FT_sendToEvm => BNested st 5000 NRevert panic_selector 32
+                  | _ => BOk st 1200
+                  end.
